@@ -199,7 +199,7 @@ CLAIMS = {
        "(3) processCallReturnValues hands back all results of a Go function: none -> nil, one -> that value, and never manufactures an error for a Go function; (4) argument building evaluates the arguments once, in order (C07) and spreads the list the last operand denotes (C20); "
        "(5) member syntax on a Go struct value (directly, behind an interface or through one pointer) yields the method of that name when there is one, and otherwise the exported field of that name at the index path reflect.Type.FieldByName reports - promoted fields of embedded structs included. "
        "(6) the callback adapter (a script function handed to Go as a func value) always inspects the (value, error) pair the script function returned and returns normally only when the error is nil - otherwise it panics with the error, which the recover region of the enclosing script call turns into that call's error; a single declared result is the value converted to the declared type. "
-       "NOT decided: element-wise slice/array/map conversion, nil -> zero value, string -> byte/rune, pointer conversion; the arguments the adapter passes and several declared results; that each argument is converted to ITS parameter type in all four call shapes; several results as a list; member WRITES, pointer-receiver methods on addressable values and copies. "
+       "NOT decided (see the additions at the end for what has since been decided): string -> byte/rune, pointer conversion; the arguments the adapter passes and several declared results; that each argument is converted to ITS parameter type in all four call shapes; several results as a list; member WRITES, pointer-receiver methods on addressable values and copies. "
        "These need a typed model of reflect (assignability/convertibility relation, method sets) that the contracts do not have.",
   note=TRUST + "Assumed: reflect.Value.Convert is Go's conversion; reflect.Value.Type / Type.ConvertibleTo are functions of their arguments.",
   technique="contract-based deductive verification: postconditions on the conversion and result-normalisation helpers, z3/cvc5",
@@ -217,6 +217,23 @@ CLAIMS = {
   technique="contract-based deductive verification: weakest-precondition style VCs from go/ssa, discharged by z3/cvc5",
   ref="4 C15"),
 }
+
+# Session-3 additions (2026-09-24): what the contracts added after seed rounds 5 and 6 decide; appended to the texts above.
+ADDENDA = {
+ 'C01': "Added: the spread loop of makeCallArgs indexes the spread list (a reflect panic escaping vm.Execute for f(xs...) on a Go function taking two or more parameters from the list was found by the new conversion-site clause and repaired, fix: commit); results of reflect.Call are valid values (trusted) and processCallReturnValues / reflectValueSlicetoInterfaceSlice require and use that; CanInterface's panic condition is an obligation.",
+ 'C02': "Added: the fixed-arity wrappers funcExpr$2..$6 and the reflect.MakeFunc translator funcExpr$7 are under contract: each runs the body runner exactly once under the context IT WAS CALLED WITH (never the defining run's context) and returns its (value, error) pair.",
+ 'C03': "Added: scanNumber's loops carry the functional invariant 'the literal text is the source text of the numeral rune for rune, with E written e and 0X/0B written 0x/0b; a plain numeral consists of digits, '.', 'e' and signs only' (hex, binary and decimal branch), so the spelling toNumber's contract classifies is the spelling the scanner produces; Scan proves scanNumber's precondition (at a digit). Not decided: that string(result) has those runes (Go's conversion), the link token -> semantic action (trusted driver).",
+ 'C04': "Added: plain assignment to an identifier calls Env.SetValue on the CURRENT scope with the identifier's name and the assigned value and, exactly when that fails, Env.DefineValue on the current scope (trace of the two env calls); with a dot-free name it cannot fail.",
+ 'C05': "Added: the pre-boxed small integers are not addressable (cache invariant proved for the initialiser, int64Value's result is never addressable), so a fast-path value is indistinguishable from boxing on demand also under &x.",
+ 'C07': "Added: binary arithmetic/comparison operators, x[i] and `in` evaluate their second operand whenever the first one succeeded (no operand is skipped on a shortcut); x[lo:hi:max] evaluates x, lo, hi, max once each in source order, each only after the previous succeeded; delete(m, k) evaluates m then k; in makeCallArgs every conversion of an argument to its Go parameter type happens right after the evaluation of that operand and before the next operand is evaluated (a failing conversion ends the evaluation of the operands after it).",
+ 'C10': "Added: delete on every non-nil map (empty or not) converts the key to the key type and checks hashability: a bad key is an error and nothing is written, a good key is deleted by exactly one SetMapIndex; len(x) is Go's len of what x denotes (int64) for arrays, channels, maps, slices, strings and an error otherwise.",
+ 'C11': "Added: several results of a Go function come back as a list whose element k is result k as Go returned it (typed nils stay typed; loop invariant + call-site clause of reflectValueSlicetoInterfaceSlice, used by processCallReturnValues); slices/arrays and maps crossing to another container type are converted element by element / entry by entry with nothing skipped (activation trace of conversions and reflect stores; map iteration via MapIter.Next); the conversion dispatch: interface-typed nil -> zero value of the target type, interface-typed value -> conversion of what it wraps, slice/array and map targets -> the element-wise converters; every argument conversion in makeCallArgs acts on the operand just evaluated (or an element of the spread list) and targets the type of the parameter it is bound to; the function wrappers pass exactly the received arguments, in order, to the body runner.",
+ 'C14': "Added: the shared pre-boxed integers are not addressable (no script can obtain a pointer into process-wide storage through &x).",
+ 'C19': "Added: keys (one entry per key reflect reports, entry k = key k), typeOf / kindOf (Go's type / kind name, \"nil\" for nil), toString (fmt.Sprint of the value unless []byte), toInt / toFloat (full case table over nil, Go-convertible values, numeral strings via strconv, bools, everything else 0), toChar (Go's string(rune) for every code point), toRune(\"\") == 0.",
+ 'C20': "Added: for-in dispatches on what its operand DENOTES (unwrap(operand)) and strips nothing else (a pointer is an error whatever its provenance); switch subject/case matching by vm.equal whatever the provenance (clauses shared with C08/C06); len and member access over unwrap(operand).",
+}
+for _k, _v in ADDENDA.items():
+    CLAIMS[_k]['text'] += ' ' + _v
 
 def main():
     repo_commits = subprocess.run(['git','-C','/repo','log','--format=%H %s'],capture_output=True,text=True).stdout.strip().split('\n')
